@@ -407,7 +407,7 @@ class LanguageContextBuilder:
             by another method.
         """
         languages: typing.Dict[str, Language] = {target_language.name: target_language}
-        for language_name in set(self.get_supported_language_names()) - set((target_language.name,)):
+        for language_name in sorted(set(self.get_supported_language_names()) - set((target_language.name,))):
             try:
                 languages[language_name] = self._new_language_w_experimental_handling(language_name)
             except UnsupportedLanguageError:
